@@ -10,7 +10,7 @@ from gen import S
 import props.c07 as c07
 import props.c10 as c10
 
-FILL = ['\n', ' ', '\r\n', '\t', '// plain\n', '// é ü 日本 \U0001f600\n', '/* block\n é */', '/**/', '   ', '\n\n', '/* \U0001f600\U0001f600 */\r\n']
+FILL = ['\n', ' ', '\r\n', '\t', '// plain\n', '// é ü 日本 \U0001f600\n', '/* block\n é */', '/**/', '/***/', '/* a **/', '/**** b ****/', '/*/ ** /* ***/', '   ', '\n\n', '/* \U0001f600\U0001f600 */\r\n']
 
 
 def build_doc(r, pols, pad_to=None):
@@ -41,7 +41,7 @@ LEX = ['permit', 'forbid', 'when', 'unless', 'principal', 'action', 'resource', 
        '__cedar', '_a1', 'A', 'z9_', '0', '7', '123456789012345678901234567890', '==', '!=', '<=', '>=', '<', '>', '&&', '||', '!', '::', ':', '.', ',', ';',
        '(', ')', '{', '}', '[', ']', '+', '-', '*', '@', '/', '=', '|', '&', '%', '#', '~', '?', '"a"', '""', '"\\n\\t\\\\\\0\\\'\\"\\*"', '"\\x41\\x7f"', '"\\u{e9}"',
        '"\\u{1F600}"', '"\\u{0000061}"', '"\\u{}"', '"\\x4"', '"\\q"', '"\\u{110000}"', '"é日\U0001f600"', '"unterminated', '"a\nb"', '// c\n', '//\n', '/**/',
-       '/* a\n b */', '/* é */', '/* unterminated', '/*/', 'é', '日', '\U0001f600', ' ', '\n', '\r\n', '\t', '\r']
+       '/* a\n b */', '/* é */', '/***/', '/* x **/', '/*/ ** ****/', '/** y ***/', '/* unterminated', '/*/', 'é', '日', '\U0001f600', ' ', '\n', '\r\n', '\t', '\r']
 BADBYTES = [b'\x00', b'\xff', b'\xc0\x80', b'\xe6\x97', b'\xf0\x9f\x98', b'\x80', b'\xed\xa0\x80', b'\xf4\x90\x80\x80', b'\xe6']
 
 
